@@ -144,7 +144,20 @@ var adversarial = []string{
 	"@lexer\nA = 'a'\n@parser\n@start s = A\n| A A\n\n| A\n", "\x00", "@lexer\nA = '\x00'\n", "@lexer\nA = [\x00-\x01]\n", "@lexer\n@external\n", "@lexer\n@external A A\n", "@lexer\n@external A\nA = 'a'\n",
 	"@lexer\nEOF = 'a'\n", "@lexer\nERROR = 'a'\n", "@parser\n@start lox = @empty\n", "@parser\n@start _s = @empty\n", "@parser\n@start s = @empty\n@lexer\nA='a'\n@parser\nt = A\n",
 	"@lexer\nA = 'a'\n@parser\n@start s = A @left(1) @left(2)\n", "@lexer\nA = 'a'\n@parser\n@start s = @left(1)\n", "@lexer\nA = 'a'\n@parser\n@start s = A | @empty @left(1)\n",
+	"@lexer\n@macro DIGITS = [0-9] DIGITS\n@macro NUMBER = '-'? DIGITS\n", "@lexer\n@macro DIGITS = [0-9] DIGITS\n@macro NUMBER = '-'? DIGITS\nN = NUMBER\n",
+	"@lexer\n@macro A = B\n@macro B = C 'x'\n@macro C = B\nT = A\n", "@lexer\n@macro OUT = IN1 | IN2\n@macro IN1 = IN2 'a'\n@macro IN2 = IN1 'b'\n",
 	"@lexer\nA = [a-z] - [a-z]\n", "@lexer\nA = [a-z] - [b] - [c]\n", "@lexer\nA = 'a' - 'b'\n", "@lexer\nA = ~~[a]\n", "@lexer\nA = ~'a'\n",
+}
+
+// adversarialMulti are multi-file specifications.
+var adversarialMulti = []map[string]string{
+	{"a.lox": "@lexer\nA = 'a'\n", "b.lox": "@lexer\nB = 'a'\n"},
+	{"a.lox": "@lexer\nA = 'a'+\n", "b.lox": "@lexer\n@frag [a-c]+ @discard\n"},
+	{"a.lox": "@lexer\n@mode M {\n  A = 'a' @pop_mode\n}\n", "b.lox": "@lexer\nB = 'b' @push_mode(M)\n@mode M {\n  C = 'a'\n}\n"},
+	{"a.lox": "@lexer\nA = 'a'\n", "b.lox": "@parser\n@start s = A\n", "c.lox": "@parser\n@start t = A\n"},
+	{"a.lox": "@parser\n@start s = t\n", "b.lox": "@parser\nt = s\n"},
+	{"a.lox": "", "b.lox": "@lexer\nA = 'a'\n"},
+	{"a.lox": "@lexer\n@macro M = N\n", "b.lox": "@lexer\n@macro N = M\nA = M\n"},
 }
 
 func c12Mutate(r *rng.R, src string) string {
@@ -435,6 +448,13 @@ func checkC12(c *Ctx) error {
 			inputs[i], inputs[j] = inputs[j], inputs[i]
 		}
 	}
+	for _, m := range adversarialMulti {
+		files := map[string][]byte{}
+		for fn, src := range m {
+			files[fn] = []byte(src)
+		}
+		inputs = append(inputs, input{files, "catalogue-multi-file"})
+	}
 	c.Logf("%d inputs prepared", len(inputs))
 
 	// ---- in-process volume ---------------------------------------------------
@@ -570,6 +590,13 @@ func checkC12(c *Ctx) error {
 	for _, a := range adversarial {
 		cli = append(cli, cliCase{map[string]string{"p.go": tinyGo, "adv.lox": a}, "catalogue", ""})
 	}
+	for _, m := range adversarialMulti {
+		files := map[string]string{"p.go": tinyGo}
+		for fn, src := range m {
+			files[fn] = src
+		}
+		cli = append(cli, cliCase{files, "catalogue-multi-file", ""})
+	}
 	for _, v := range c12GoVariants() {
 		cli = append(cli, cliCase{v, "go-package-variant", ""})
 	}
@@ -647,7 +674,7 @@ func checkC12(c *Ctx) error {
 			kind, why = "valid-spec-rejected", fmt.Sprintf("exit %d:\n%s", v.exit, trimTo(v.stderr, 1500))
 		}
 		if kind == "" {
-			if i%97 == 0 {
+			if c.Ev.WantSample() {
 				c.Ev.Sample(map[string]any{"origin": cc.origin, "exit": v.exit, "stderr": trimTo(v.stderr, 300), "files": trimFiles(cc.files)})
 			}
 			return
